@@ -134,15 +134,28 @@ Theorem bad_auth_noop : forall C n src m o cid i Y au ce r c u x s1 s2,
 Proof. exact bad_auth_noop_l. Qed.
 Print Assumptions bad_auth_noop.
 
-(* Matching identifier, key that X25519 rejects: the removal of the circuit is scheduled, nothing else changes. *)
-Theorem bad_point_schedules_removal : forall C n src m o cid i Y au ce r c u x,
+(* Matching identifier, malformed key material (X25519 raises ValueError: wrong length, rejected point): the
+   answer is ignored like any other unauthentic answer - nothing changes, the retry cache stays (fix 48d1509;
+   before it anybody who guessed the 16-bit identifier could tear down a circuit that is being built). *)
+Theorem malformed_key_noop : forall C n src m o cid i Y au ce r c u x,
   answer_of C m = Some (cid, i, Y, au, ce) -> not_relay_case C n m ->
   aget cid (n_retry n) = Some r -> r_pid r = i ->
   aget cid (n_circ n) = Some c -> c_unv c = Some u -> h_dh u = Some x ->
   dh C x Y = None ->
-  handle n src m o = (schedule_rm n cid, [], None).
-Proof. exact bad_point_removal_l. Qed.
-Print Assumptions bad_point_schedules_removal.
+  handle n src m o = (n, [], None).
+Proof. exact bad_point_noop_l. Qed.
+Print Assumptions malformed_key_noop.
+
+(* Every created / extended is either ACCEPTED - it matches the outstanding retry cache and verifies against the
+   unverified hop - or it changes nothing at all: the circuit entry, its unverified hop, the retry cache and every
+   other table stay as they were and nothing is sent (wrong identifier, no cache, failed authentication, malformed
+   key material, no unverified hop). *)
+Theorem unaccepted_answer_changes_nothing : forall C (n : @node C) src m o cid i Y au ce,
+  answer_of C m = Some (cid, i, Y, au, ce) -> not_relay_case C n m ->
+  (exists e, handle n src m o = (n, [], e))
+  \/ (exists r h, aget cid (n_retry n) = Some r /\ r_pid r = i /\ accepts C n cid Y au h).
+Proof. exact unaccepted_answer_changes_nothing_l. Qed.
+Print Assumptions unaccepted_answer_changes_nothing.
 
 (* No unverified hop (the answer has been consumed already): nothing happens. *)
 Theorem no_unverified_noop : forall C n src m o cid i Y au ce c,
@@ -307,7 +320,7 @@ Example bad_answers_concrete :
   /\ handle tO1 11 bad_circuit (orc 0 0 [] 0 0) = (tO1, [], None)
   /\ handle tO1 11 bad_auth (orc 0 0 [] 0 0) = (tO1, [], Some CryptoError)
   /\ handle tO1 11 bad_key (orc 0 0 [] 0 0) = (tO1, [], Some CryptoError)
-  /\ handle tO1 11 bad_point (orc 0 0 [] 0 0) = (schedule_rm tO1 7, [], None)
+  /\ handle tO1 11 bad_point (orc 0 0 [] 0 0) = (tO1, [], None)
   /\ same_hops tO3 (st (handle tO3 11 extended2 (orc 105 503 [] 0 0)))
   /\ same_hops tO3 (st (handle tO3 11 created1 (orc 105 503 [] 0 0))).
 Proof. exact toy_bad_answers. Qed.
